@@ -349,6 +349,9 @@ int main(int argc, char ** argv)
   { Op o{"set_esum(0.5,1.5)", 4}; o.a = 0.5; o.b = 1.5; ops.push_back(o); }
   { Op o{"set_esum(1.5,0.5)", 4}; o.a = 1.5; o.b = 0.5; ops.push_back(o); }
   { Op o{"set_esum(1,1)", 4}; o.a = 1.0; o.b = 1.0; ops.push_back(o); }
+  // well-ordered but wholly above the available energy: refused by the kernel itself (an exception out of the engine start-up,
+  // not one of initialize()'s own checks nor an error code of genbbsub)
+  { Op o{"set_esum(3.5,4)", 4}; o.a = 3.5; o.b = 4.0; ops.push_back(o); }
   { Op o{"set_esum(nan,nan)", 4}; o.a = NAN; o.b = NAN; ops.push_back(o); } // the window dropped again
   ops.push_back({"add_operation(MDL)", 5});
   ops.push_back({"add_operation(null)", 6});
